@@ -67,7 +67,10 @@ C15(e) ==
        \cup (IF e.lres # "ok" THEN {}
              ELSE IF e.lloads - e.lshift > 2 * DOf(e) + 2 THEN {V("C15", "node diff reads more than 2*D+2 distinct nodes")}
              ELSE IF e.lloads > 2 * DOf(e) + 2 THEN {V("C15", "node diff reads common subtrees that sit at different places in the two versions (more than 2*D+2 distinct nodes in all)")} ELSE {})
-       \cup (IF e.same /\ (e.eloads > 0 \/ e.lloads > 0) THEN {V("C15", "diff of a version with itself reads nodes")} ELSE {})
+       \cup (IF e.curres # "ok" THEN {}
+             ELSE IF e.cloads - e.cshift > 2 * DOf(e) + 2 THEN {V("C15", "cursor diff reads more than 2*D+2 distinct nodes")}
+             ELSE IF e.cloads > 2 * DOf(e) + 2 THEN {V("C15", "entry diff reads common subtrees that sit at different places in the two versions (more than 2*D+2 distinct nodes in all)")} ELSE {})
+       \cup (IF e.same /\ (e.eloads > 0 \/ e.lloads > 0 \/ (e.curres = "ok" /\ e.cloads > 0)) THEN {V("C15", "diff of a version with itself reads nodes")} ELSE {})
 
 Machine(e) == Run(InitDS(e.old, e.new, e.hasold, FALSE), e.cfg.layers, TRUE)
 
